@@ -62,6 +62,7 @@ def run_kani_property(prop, tier, units, assumptions=(), samples=(), not_decided
                 cov['rows_undecided'] += 1
                 unit_info['undecided'].append(row)
                 rep.undecide('[%s] row %s: %s' % (u, row, (e.get('why') or '')[:400]))
+        unit_info['slowest_rows'] = sorted([(round(e.get('time') or 0, 1), r) for r, e in res['per_row'].items()], reverse=True)[:8]
         cov['units'].append(unit_info)
         if method_check and u in method_check:
             try:
